@@ -300,7 +300,7 @@ def run(tier, seed):
     deductive(res, agg)
     # ExtendedEOF hands already preprocessed data to its inner EOF: no second standardisation / weighting there (shared forwarding contract)
     from props.C07 import deductive_inner_models
-    deductive_inner_models(res, agg, aspects=("preprocessing",), models=("ExtendedEOF",))
+    deductive_inner_models(res, agg, aspects=("rescaling",), models=("ExtendedEOF",))
     agg.flush()
     run_bounded(res, tier, seed)
     return res
